@@ -6,6 +6,7 @@ import z3
 from harness.common import run_check, expectation
 from checks.serverfam import *
 from native import oracle
+from checks import hobl
 
 
 @expectation('srv_expect')
@@ -344,6 +345,7 @@ def main(chk):
     tasks.sort(key=lambda t: -(len(t[1][1]) if t[0] is o2_recv else 0))
     chk.parallel(_dispatch, tasks)
 
+    hobl.handle_obligations(chk, prog, {'C03'}, ['simple', 'session', 'extended', 'named', 'malformed', 'cuts', 'plugins', 'two-backends', 'pause'])
 
 if __name__ == '__main__':
     run_check('C03', main)
